@@ -81,9 +81,12 @@ func scanFile(r io.Reader) (*machoMarkers, error) {
 		_, _ = io.ReadFull(r, ident[:])
 		endOfHeader += 4
 	}
-	dat := make([]byte, f.Cmdsz)
-	if _, err := io.ReadFull(r, dat); err != nil {
+	// the load commands are read through a limited reader so that a size the file does not back is an error, not an allocation
+	dat, err := io.ReadAll(io.LimitReader(r, int64(f.Cmdsz)))
+	if err != nil {
 		return nil, err
+	} else if len(dat) != int(f.Cmdsz) {
+		return nil, io.ErrUnexpectedEOF
 	}
 	endOfHeader += len(dat)
 	f.nextLc = int64(endOfHeader)
@@ -192,6 +195,10 @@ func (f *machoMarkers) PatchSignature(oldHeader []byte, sigSize int64) (newHeade
 	}
 	// allocate patch buffer for signature
 	padding = sigStart - f.codeSize
+	if padding < 0 {
+		err = errors.New("existing signature overlaps the end of the __LINKEDIT segment")
+		return
+	}
 	padded := make([]byte, padding+sigSize)
 	sigBuf = padded[padding:]
 	// make room for signature loadcmd if there isn't one already
